@@ -514,7 +514,8 @@ theorem C18_eos_both_keys (f : Bytes) (rest : List Val) (d : Dict)
     intro v; simp [lookup]
   have l3 : ∀ v, lookup ((kF, v) :: d) kF = some v := by
     intro v; simp [lookup]
-  constructor <;> simp only [eosOf, getAny, l1, l2, l3]
+  have hk : keysEosFilter = [kF, kFilter] := rfl
+  constructor <;> simp only [eosOf, hk, getAny, l1, l2, l3]
 
 example : eosOf [(kFilter, .name nASCII85Decode)] = .ok [126, 62] ∧ eosOf [(kF, .name nA85)] = .ok [126, 62] ∧
     eosOf [(kFilter, .arr [.name nA85, .name [70, 108]])] = .ok [126, 62] ∧ eosOf [(kFilter, .name [70, 108])] = .ok [69, 73] := by
